@@ -57,6 +57,31 @@ Theorem c19_noninterference_up_to_channel : forall e s t, redact e = true -> ses
 Proof. exact up_to_channel_all. Qed.
 Print Assumptions c19_noninterference_up_to_channel.
 
+(* The theorems above are about twin session STATES.  Does a flow keep twin states twin?  Only two actions look at
+   the contact's URNs (contact.go HasURN/AddURN, UpdatePreferredChannel):
+   set_contact_channel always does; add_contact_urn does when the candidate is held by both twins or by neither, and
+   does NOT otherwise (listed known finding: the action is an equality test on the hidden path, visible through
+   count(contact.urns)). *)
+Theorem c19_set_channel_preserves_twins : forall ch us vs, Forall2 urn_twin us vs ->
+  Forall2 urn_twin (update_preferred_channel ch us) (update_preferred_channel ch vs).
+Proof. exact update_preferred_channel_twin. Qed.
+Print Assumptions c19_set_channel_preserves_twins.
+
+(* full statement (FALSE, next theorem): forall us vs u, Forall2 urn_twin us vs -> Forall2 urn_twin (add_urn us u) (add_urn vs u).
+   Extra hypothesis: the candidate is held by both or by neither. *)
+Theorem c19_add_urn_preserves_twins_partial : forall us vs u, Forall2 urn_twin us vs ->
+  has_urn us u = has_urn vs u -> Forall2 urn_twin (add_urn us u) (add_urn vs u).
+Proof. exact add_urn_twin. Qed.
+Print Assumptions c19_add_urn_preserves_twins_partial.
+
+Theorem c19_add_urn_refuted :
+  exists e s t u, redact e = true /\ session_twin s t /\
+    ~ Forall2 urn_twin (add_urn [ex_tel "+12065551212"] u) (add_urn [ex_tel "+12065553434"] u) /\
+    root_context e (set_contact_urns s (fun us => add_urn us u))
+      <> root_context e (set_contact_urns t (fun us => add_urn us u)).
+Proof. exact add_urn_refuted_witness. Qed.
+Print Assumptions c19_add_urn_refuted.
+
 (* contacts without a name are shown by id (and named ones by name, whatever the policy) wherever a contact or
    a run is rendered: @contact, @run.contact, @run, @parent.contact, @parent, @child.contact, @child *)
 Theorem c19_format_by_id : forall e c,
